@@ -199,6 +199,13 @@ def fam_c03(ctx):
     base2 = [(["select.pre", 2], [["sig", "HUP", 3, 0]])]
     S += inject_everywhere(base2, [[["die", "oldest", 0]], [["die", "youngest", 256], ["die", "oldest", 256]],
                                    [["sig", "TTIN"]]], stride=1 if not ctx.quick else 2)
+    # a worker dies (and is reaped by the SIGCHLD handler) at every source line the master executes inside its
+    # once-a-second passes over the workers: murder_workers (between its snapshot of WORKERS and each heartbeat lookup),
+    # manage_workers, kill_workers ...
+    for fn, upto in (("murder_workers", 14 if ctx.quick else 40), ("manage_workers", 10 if ctx.quick else 30)):
+        for nth in range(1, upto):
+            for who in ("youngest", "oldest"):
+                S.append(ex([(["line:" + fn, nth], [["die", who, 9]])], nw=2, line_points=True))
     # seeded random histories
     n = 1000 if ctx.quick else 6000
     for i in range(n):
